@@ -4,7 +4,8 @@
 // written in Go; after every call the residue of the core (verifCoreExit hook), the core list,
 // the core-list lock (TryLock, never blocking) and the goroutines inside Core.Run are inspected.
 // service.go holds the single-core functions, service2.go the stored iterables (ranges in globals,
-// fields, elements, locals) and the relay functions (work handed over to threads).
+// fields, elements, locals) and the relay functions (work handed over to threads), exits.go the family
+// of functions that are left from an operand position (operand position x way of leaving x syntax).
 package c16
 
 import (
@@ -26,10 +27,11 @@ func (c16) Info(tier string) fw.Info {
 	return fw.Info{
 		Level: "exploration",
 		Rule: "each case is one history of 5-60 host invocations (SpawnSync, 10% as SpawnAsync+Wait+HandleTermination) on ONE VM of a compiled service program " +
-			fmt.Sprintf("(%d functions over 10 globals; variants: shuffled definition order, two sets of initial global values, three core limit sets, optional trigger annotation + event function (NewVM -> annotation argument function -> main), optional no-op cancel function, optional relay functions); ", len(specs)) +
+			fmt.Sprintf("(%d functions over 10 globals; variants: shuffled definition order, two sets of initial global values, three core limit sets, optional trigger annotation + event function (NewVM -> annotation argument function -> main), optional no-op cancel function, optional relay functions, optional exits family); ", len(specs)) +
 			"functions and well-typed argument values (boundary ints/floats/strings, lists, objects, options, any-objects) are drawn from a PRNG seeded by VERIF_SEED; about 1 call in 30 is a failing one (uncaught throw - also out of a for loop and in the last thread of a hand-over chain -, index out of bounds, division by zero, call-stack overflow, fatal error inside try inside a loop). " +
 			"Stored iterables: a range in a global (bounds assignable), ranges in an object field / a list element / a local, a string and lists are iterated by for loops that are left by return, break, continue, a caught and an uncaught throw, nested in themselves and re-entered through a call; the generator often calls an observer (or the same function again) right after such a call. " +
 			"Relay variant (1 history in 6): the invoked function hands its work over to threads (one thread, chains of two and three threads each started by the previous one, two chains side by side, the invoking core busy meanwhile), every stage spins 0-30000 iterations so that cores finish - and are reaped by Wait - in every order; for half of these histories the schedule is perturbed through the verifYield/verifCoreExit hooks: a core about to start a thread and a thread about to signal its exit is held (at most 25 ms) until Wait has removed every core that finished before (the verdict never depends on the waiting time). " +
+			fmt.Sprintf("Exits variant (1 history in 5, plus one fixed history per operand position that calls every member with every pooled argument): functions that are left from an operand position while other operands wait on the stack - %d positions (right operand of infix operators one and three deep and in a condition; right-hand side of = and of the compound operators for a local, a global, a field, an element, a nested place and places in globals; the index of a read, of an assignment target and of both; first / middle / last / nested argument of a named call, argument of a called value, of a method, next to a function literal; element of a list literal, field of an object literal, end of a range; condition of an if and control value of a match inside an operand; inside a try and next to a finished loop inside an operand) x 6 ways of leaving (return; continue and break of a while, a for and a loop loop with 0-2000 iterations; throw caught by a handler around the statement; the returning function itself called in operand position) x 3 syntaxes of the leaving operand (block, if-else, match); ", len(exitPositions)) +
 			"Every call is compared with a sequential model of the service (globals state machine in Go): a completed call must return exactly the model's value with the declared dynamic type (nil/null for null functions), a failing call must fail with the model's fatal kind (and thrown message). " +
 			"After every completed call: every core started during the call (counted at verifYield(\"spawn\")) has signalled its exit before the call returned, their number is 1 + the number of threads the function starts, and the core of the invoked function exited with operand stack = exactly the return value (null for null functions), no call frames, memory pointer 0, no exception handlers. After every call: core list empty, Cores.Lock acquirable by TryLock (a leaked lock is reported and NO further call is attempted, so no worker ever blocks), no goroutine left inside runtime.(*Core).Run (a goroutine blocked in a channel send after the call returned can never proceed). " +
 			"AFTER A FAILED CALL the VM must answer later calls with a failure instead of blocking: Wait() cancels the shared context on failure; whenever the context is observed cancelled before a call (ctx.Err() != nil), ANY failure answer is accepted and a regular result is a violation (the call must not execute: the model state is not advanced); histories with a real cancel function end with one arbitrary call, one call of a few instructions (less than one 50-instruction scheduling cycle) and one of thousands. With a no-op cancel function the context stays live, later calls really execute and must agree with the model (which keeps the partial effects of the failed call). Blocking (lock precondition) and a host crash are rejected in both modes. " +
@@ -58,7 +60,8 @@ func (c16) Cases(tier string, seed uint64) []fw.Case {
 	// fw.NewRng(seed+k) is the stream of fw.NewRng(seed) shifted by k draws: hash the seed first so that
 	// different VERIF_SEEDs give unrelated case lists
 	hs := sha256.Sum256([]byte(fmt.Sprintf("C16/%d", seed)))
-	root := fw.NewRng(binary.LittleEndian.Uint64(hs[:8]))
+	root0 := binary.LittleEndian.Uint64(hs[:8])
+	root := fw.NewRng(root0)
 	lockOpen := fw.KFOpen(kfLock)
 	anyOpen := fw.KFOpen(kfAnyObj)
 	orphanOpen := fw.KFOpen(kfOrphan)
@@ -119,10 +122,23 @@ func (c16) Cases(tier string, seed uint64) []fw.Case {
 				o.n = 30
 			}
 		}
+		// the exits variant is decided by a stream of its own (the other histories stay what they were)
+		if x := fw.NewRng(root0 ^ (uint64(i)+1)*0x9e3779b97f4a7c15); !exprOpen && !o.variant.Spawn && !o.variant.Relay && x.Chance(1, 4) {
+			o.variant.Exits = true
+			o.favour = strings.Join(exitFns, ",")
+		}
 		pl, ff := genHistory(r, o)
 		pl.SkipLockAfterFailure = lockOpen
 		pl.Reap = o.variant.Relay && r.Bool()
 		mk(fmt.Sprintf("h%05d", i), "hist", pl, ff)
+	}
+
+	// ---- exits from operand positions: every function of the family with every pooled argument ----
+	if !exprOpen {
+		for i, pl := range exitSweeps() {
+			pl.SkipLockAfterFailure = lockOpen
+			mk(fmt.Sprintf("xs%02d:%s", i, exitPositions[i].name), "exit-sweep", pl, -1)
+		}
 	}
 
 	// ---- poisoned workloads (one construct each) --------------------------------------------------
@@ -215,6 +231,9 @@ func (c16) Run(c fw.Case) fw.Result {
 	}
 	if pl.Variant.Relay {
 		h.cover["variant:relay"] = true
+	}
+	if pl.Variant.Exits {
+		h.cover["variant:exits"] = true
 	}
 	if pl.Reap {
 		h.cover["schedule:reap-before-spawn-and-exit"] = true
